@@ -298,10 +298,55 @@ pub fn drive_corpus(corpus: &str, seed: u64, thorough: bool, w: &mut NdWriter) -
   json!({"corpus_cut": n_cut, "corpus_self": n_self, "corpus_near": n_near, "corpus_broken": n_broken, "languages": langs})
 }
 
+/// C04, first clause, for single patterns: a variable that occurs twice; candidates whose two sub-terms are identical,
+/// different, or equal up to trailing optional children (`new Foo` / `new Foo(1)`, `if` with and without `else`)
+pub fn drive_repeated(w: &mut NdWriter) -> usize {
+  let js = SupportLang::JavaScript;
+  let ts = SupportLang::TypeScript;
+  let py = SupportLang::Python;
+  let rs = SupportLang::Rust;
+  let cases: Vec<(SupportLang, &str, Vec<&str>)> = vec![
+    (js, "foo($A, $A)", vec!["foo(new Foo, new Foo(1))", "foo(new Foo(1), new Foo)", "foo(new Foo, new Foo)", "foo(a.b, a.b)", "foo(a.b, a.b.c)", "foo(x => 1, x => 1)",
+                             "foo(function(){}, function(){ a })", "foo(a ? b : c, a ? b : c)", "foo(\"é\", \"é\")", "foo(/* c */ a, a)", "foo(a, /* c */ a)", "foo(-a, -a.b)"]),
+    (js, "[$A, $A]", vec!["[new Foo, new Foo(2)]", "[new Foo(2), new Foo(2)]", "[class {}, class { m() {} }]", "[yield, yield a]", "[a, a]", "[[1, 2], [1, 2, 3]]", "[[1, 2], [1, 2]]"]),
+    (js, "$C ? $A : $A", vec!["c ? new Foo : new Foo(1)", "c ? new Foo : new Foo", "c ? x : x", "c ? x : y"]),
+    (js, "$A = $A", vec!["a.b = a.b", "a.b = a.b.c", "x = x", "x = y"]),
+    (js, "if ($C) $S else $S", vec!["if (c) x(); else x();", "if (c) { x() } else { x(); y() }", "if (c) new A; else new A(1);"]),
+    (ts, "foo($A, $A)", vec!["foo(new Foo, new Foo<T>())", "foo(new Foo<T>(), new Foo<T>())", "foo(a as T, a as T)", "foo(a!, a!.b)"]),
+    (py, "foo($A, $A)", vec!["foo(lambda: 1, lambda: 1)", "foo(a.b, a.b.c)", "foo(a.b, a.b)", "foo(not a, not a)", "foo(x if c else y, x if c else y)", "foo(-a, -a)"]),
+    (py, "[$A, $A]", vec!["[a, a]", "[a, b]", "[f(a), f(a, b)]", "[f(a), f(a)]"]),
+    (rs, "foo($A, $A)", vec!["foo(a.b, a.b)", "foo(a.b, a.b.c)", "foo(x as u8, x as u8)", "foo(&a, &a.b)", "foo(return, return 1)", "foo(break, break 'l)"]),
+  ];
+  let mut n = 0;
+  for (l, pat, srcs) in &cases {
+    for (k, src) in srcs.iter().enumerate() {
+      let g = l.ast_grep(*src);
+      // candidates: every node the pattern could be tried on
+      for (j, c) in g.root().dfs().enumerate() {
+        if c.dfs().count() > 60 || !c.is_named() {
+          continue;
+        }
+        if let Some(r) = match_record(&format!("rep-{}-{pat}-{k}.{j}", util::lang_name(*l)), *l, pat, &c, json!({"mode": "near"})) {
+          w.put(&r);
+          n += 1;
+        }
+      }
+    }
+  }
+  n
+}
+
 pub fn drive(prop: &str, vectors: Option<&str>, vectors2: Option<&str>, corpus: &str, seed: u64, out: &str, thorough: bool) {
   std::panic::set_hook(Box::new(|_| {}));
   let mut w = NdWriter::new(out);
   let mut summ = json!({});
+  if prop == "c04rep" {
+    summ["repeated_variable_records"] = json!(drive_repeated(&mut w));
+    summ["records"] = json!(w.finish());
+    util::summary(summ);
+    return;
+  }
+  summ["repeated_variable_records"] = json!(drive_repeated(&mut w));
   if let Some(v) = vectors {
     summ["c03_vectors"] = json!(drive_c03_vectors(v, &mut w));
   }
